@@ -121,7 +121,11 @@ type workerResult struct {
 }
 
 func runWorker(bin string, args []string, gomaxprocs int, timeout time.Duration) *workerResult {
-	cmd := exec.Command(bin, args...)
+	// each worker runs under an address-space limit: an allocation bomb in the
+	// code under test becomes an "out of memory" crash of that worker (reported
+	// with its seed) instead of an OOM kill of the whole check
+	sh := "ulimit -v " + memLimitKB() + " 2>/dev/null; exec \"$0\" \"$@\""
+	cmd := exec.Command("/bin/sh", append([]string{"-c", sh, bin}, args...)...)
 	cmd.Env = append(os.Environ(), "GOMAXPROCS="+strconv.Itoa(gomaxprocs), "GOTRACEBACK=all")
 	cmd.Dir = os.TempDir()
 	so, _ := cmd.StdoutPipe()
@@ -525,6 +529,13 @@ func check(prop, tier string) int {
 	return exit
 }
 
+func memLimitKB() string {
+	if v := os.Getenv("VERIF_WORKER_MEM_KB"); v != "" {
+		return v
+	}
+	return "6000000"
+}
+
 func tail(s string, n int) string {
 	ls := strings.Split(s, "\n")
 	if len(ls) > n {
@@ -563,7 +574,7 @@ func confirmCrash(bin string, leg Leg, prop string, r *workerResult, scr string)
 
 func panicLine(stderr string) string {
 	for _, l := range strings.Split(stderr, "\n") {
-		if strings.HasPrefix(l, "panic:") || strings.HasPrefix(l, "fatal error:") {
+		if strings.HasPrefix(l, "panic:") || strings.HasPrefix(l, "fatal error:") || strings.HasPrefix(l, "runtime: out of memory") {
 			return l
 		}
 	}
